@@ -254,6 +254,7 @@ struct archive_write_disk {
 	char			*name; /* Name of entry, possibly edited. */
 	struct archive_string	 _name_data; /* backing store for 'name' */
 	char			*tmpname; /* Temporary name * */
+	int			 tmpfile_incomplete; /* Writing to tmpname failed */
 	struct archive_string	 _tmpname_data; /* backing store for 'tmpname' */
 	/* Tasks remaining for this object. */
 	int			 todo;
@@ -609,6 +610,7 @@ _archive_write_disk_header(struct archive *_a, struct archive_entry *entry)
 	a->fd = -1;
 	a->fd_offset = 0;
 	a->offset = 0;
+	a->tmpfile_incomplete = 0;
 	a->restore_pwd = -1;
 	a->uid = a->user_uid;
 	a->mode = archive_entry_mode(a->entry);
@@ -984,8 +986,10 @@ write_data_block(struct archive_write_disk *a, const char *buff, size_t size)
 	if (a->flags & ARCHIVE_EXTRACT_SPARSE) {
 #if HAVE_STRUCT_STAT_ST_BLKSIZE
 		int r;
-		if ((r = lazy_stat(a)) != ARCHIVE_OK)
+		if ((r = lazy_stat(a)) != ARCHIVE_OK) {
+			a->tmpfile_incomplete = 1;
 			return (r);
+		}
 		block_size = a->pst->st_blksize;
 #else
 		/* XXX TODO XXX Is there a more appropriate choice here ? */
@@ -1033,6 +1037,7 @@ write_data_block(struct archive_write_disk *a, const char *buff, size_t size)
 			if (lseek(a->fd, a->offset, SEEK_SET) < 0) {
 				archive_set_error(&a->archive, errno,
 				    "Seek failed");
+				a->tmpfile_incomplete = 1;
 				return (ARCHIVE_FATAL);
 			}
 			a->fd_offset = a->offset;
@@ -1040,6 +1045,7 @@ write_data_block(struct archive_write_disk *a, const char *buff, size_t size)
 		bytes_written = write(a->fd, buff, bytes_to_write);
 		if (bytes_written < 0) {
 			archive_set_error(&a->archive, errno, "Write failed");
+			a->tmpfile_incomplete = 1;
 			return (ARCHIVE_WARN);
 		}
 		buff += bytes_written;
@@ -1916,7 +1922,18 @@ finish_metadata:
 		close(a->fd);
 		a->fd = -1;
 		if (a->tmpname) {
-			if (rename(a->tmpname, a->name) == -1) {
+			if (a->tmpfile_incomplete) {
+				/*
+				 * Some data could not be written: keep the
+				 * existing file, do not replace it with an
+				 * incomplete one.
+				 */
+				archive_set_error(&a->archive, ARCHIVE_ERRNO_MISC,
+				    "Incomplete temporary file discarded, "
+				    "existing file left untouched");
+				ret = ARCHIVE_FAILED;
+				unlink(a->tmpname);
+			} else if (rename(a->tmpname, a->name) == -1) {
 				archive_set_error(&a->archive, errno,
 				    "Failed to rename temporary file");
 				ret = ARCHIVE_FAILED;
